@@ -677,8 +677,12 @@ def run(ctx, prop):
             # a primitive whose result cannot be read as a term (it waits, loops or locks): pinned by its ingredients - every
             # workspace / third-party call the reviewed body makes (with constant operands) must still be made somewhere in it
             cur = set(census_of(ctx, fs[0]))
-            gone = sorted(set(e["census"]) - cur)
-            came = sorted(cur - set(e["census"]))
+            ref_c = set(e["census"])
+            for alt_c in e.get("census_alt", []):          # reviewed alternative ways of writing the primitive
+                if cur == set(alt_c):
+                    ref_c = set(alt_c)
+            gone = sorted(ref_c - cur)
+            came = sorted(cur - ref_c)
             msg = []
             if gone:
                 msg.append("no longer makes the calls %s that its reviewed body makes" % gone)
